@@ -55,7 +55,7 @@ def wildcardize(rng, path):
 class C20(Prop):
     id = 'C20'
     extracted = True      # Local.resolve_filenames regenerated from the current source (harness/extract_m.py, Extracted/EquivC20.lean)
-    quick_cases = 1500
+    quick_cases = 3500
     thorough_cases = 20000
     quick_budget_s = 50
     rule = ('real directory trees (files, dataset directories with part files + _SUCCESS, nesting <= 3) x path expressions built '
